@@ -568,6 +568,17 @@ func VerifyFunction(L *Loaded, name string, ct *Contract, prop string) (res *Fun
 	}
 	st.reach = vc.Define("pre", st.reach)
 	vc.entry = st.Clone()
+	if ct != nil {
+		vc.ownClause = map[*Clause]bool{}
+		for _, cl := range ct.Ensures {
+			vc.ownClause[cl] = true
+		}
+		for _, cls := range ct.Invariants {
+			for _, cl := range cls {
+				vc.ownClause[cl] = true
+			}
+		}
+	}
 	// ghost counters advanced by every call of this function
 	if ct != nil {
 		for _, gi := range ct.GhostInc {
